@@ -70,6 +70,12 @@ example : PF_CMD_SKIP = PF_CMD_PREFIX.length := by decide
 example : PF_CMD_REPLIES = ["QUERY_PF_NAT_SUCCESS %s,%r\n", "QUERY_PF_NAT_FAILURE %s\n"] := by decide
 example : PF_QUERY_NAT_PARAMS = ["self", "family", "proto", "src_ip", "src_port", "dst_ip", "dst_port"] := by decide
 
+-- pf's `firewall_command` writes exactly one reply line per QUERY_PF_NAT: one write in the `try`
+-- body, one in the `except` handler, no loop (`sessStep (.query _)` appends exactly one line)
+example : PF_CMD_WRITES = ["try:sys.stdout.write('QUERY_PF_NAT_SUCCESS %s,%r\\n' % dst)",
+    "except:sys.stdout.write('QUERY_PF_NAT_FAILURE %s\\n' % e)"] := by decide
+example : PF_CMD_LOOPS = 0 := by decide
+
 -- the helper's command loop writes nothing to the channel except through `firewall_command`:
 -- `sessStep (.host _)` produces no line (what `C05_pf_session_pairing` rests on)
 example : FW_MAIN_STDOUT_WRITES = ["('READY %s\\n' % method.name).encode('ASCII')", "b'STARTED\\n'"] := by decide
